@@ -82,6 +82,8 @@ def run_unit(unit, rec):
     if len(dirs) > 80:
         dirs = dirs[:: len(dirs) // 80]
     dirs = np.vstack([dirs, dirs[:5] * 0.37 + 0.11])
+    # only the direction matters: very short and very long query vectors as well
+    dirs = np.vstack([dirs, dirs[::7] * 1e-9, dirs[3::7] * 1e-5, dirs[5::7] * 1e6, (dirs[:4] * 0.37 + 0.11) * 1e-8])
     ncl = 0
     for name, P in _clouds(unit):
         ncl += 1
@@ -143,7 +145,7 @@ def run_unit(unit, rec):
                         for j, (b, a) in enumerate(zip(dirs, al)):
                             rec.distinct((name, src, "dir", j))
                             val = float(np.max((a * b) @ N0.T + off0)) if np.isfinite(a) else np.nan
-                            ok = np.isfinite(a) and a > 0 and abs(val) <= 1e-9 * scale and np.max(np.abs(Bw[j] - a * b)) <= 1e-12 * scale
+                            ok = np.isfinite(a) and a > 0 and abs(val) <= 1e-9 * scale and np.max(np.abs(Bw[j] - a * b)) <= 1e-12 * scale * max(1.0, float(np.max(np.abs(a * b))))
                             rec.outcome("alpha/%s" % ("ok" if ok else "bad"))
                             if not ok:
                                 _v(rec, "d", dict(sig, api="alpha_for_B_with_P", what="incidence", eqsrc=src), "alpha=%r: the multiple is not the positive multiple on the hull boundary (max facet value %.3g)" % (a, val),
